@@ -30,7 +30,7 @@ pub fn run(ctx: &Ctx) -> i32 {
         triples: ctx.tier == fw::Tier::Thorough,
         bom_prefixes: false,
         random_per_enc: ctx.n(4_000, 120_000),
-        profile: Profile { max_tokens: ctx.tier.pick(14, 48), small_caps_weight: 90, queries: false, modes: &hist::ALL_MODES, sinks: &hist::ALL_SINKS, bom_prefix_weight: 32 },
+        profile: Profile { max_tokens: ctx.tier.pick(14, 48), small_caps_weight: 90, queries: false, exact_queries: false, modes: &hist::ALL_MODES, sinks: &hist::ALL_SINKS, bom_prefix_weight: 32 },
         fills: vec![0xA5],
     };
     let mut st = dech::run_dec_check(ctx, &dc);
@@ -48,7 +48,7 @@ pub fn run(ctx: &Ctx) -> i32 {
             core_max_chars: 2,
             core_max_chars_2022: ctx.tier.pick(2, 3),
             random_per_enc: ctx.n(4_000, 120_000),
-            profile: EProfile { max_chars: ctx.tier.pick(24, 96), small_caps_weight: 90, queries: false, mappable_only: false },
+            profile: EProfile { max_chars: ctx.tier.pick(24, 96), small_caps_weight: 90, queries: false, exact_queries: false, mappable_only: false },
             mappable_only_when_repl: false,
         };
         st.merge(ench::run_enc_check(ctx, &ec));
